@@ -158,6 +158,97 @@ pub fn run(run: &Run) {
         run.distinct(hash_str(&format!("o|{}|{:?}", fname, idx)));
     });
 
+    // ---- family 1c: same-operator chains of 2..4 boolean-array operands with EVERY
+    // combination of operand lengths 0..3 (and absent, for the optional ones): the
+    // result is as long as the shortest operand, whatever the order of the lengths
+    {
+        use crate::ast::*;
+        use crate::rv::{RType, RV};
+        let eng = &envs[0];
+        let env = &eng.env;
+        let fld = |n: &str| env.field(n).unwrap();
+        // operand k, the field that controls its length, and how to fill it
+        let operands: Vec<(Expr, usize, RType)> = vec![
+            (Expr::Cmp(Path::field(fld("l_tru_m")), CmpOp::IsTrue), fld("l_tru_m"), RType::Bool),
+            (
+                Expr::Cmp(Path { base: Base::Field(fld("l_num_m")), idx: vec![Idx::Each] }, CmpOp::Ord(OrdOp::Gt, Lit::Int(0))),
+                fld("l_num_m"),
+                RType::Int,
+            ),
+            (Expr::Cmp(Path::field(fld("l_tru_o")), CmpOp::IsTrue), fld("l_tru_o"), RType::Bool),
+            (
+                Expr::Cmp(Path { base: Base::Field(fld("l_str_o")), idx: vec![Idx::Each] }, CmpOp::Ord(OrdOp::Eq, Lit::Bytes(BytesLit::quoted(b"a".to_vec())))),
+                fld("l_str_o"),
+                RType::Bytes,
+            ),
+        ];
+        // (operator, operand count, length code per operand: 0..=3 elements, 4 = absent)
+        let mut cases: Vec<(LogOp, usize, Vec<usize>)> = Vec::new();
+        for op in LOG_OPS {
+            for n in 2..=4usize {
+                let mut lens = vec![0usize; n];
+                loop {
+                    if lens.iter().enumerate().all(|(k, l)| *l < 4 || k >= 2) {
+                        cases.push((op, n, lens.clone()));
+                    }
+                    let mut p = 0;
+                    while p < n {
+                        lens[p] += 1;
+                        if lens[p] < 5 {
+                            break;
+                        }
+                        lens[p] = 0;
+                        p += 1;
+                    }
+                    if p == n {
+                        break;
+                    }
+                }
+            }
+        }
+        run.exhaustive("vector-chains", true);
+        run.note("vector_chain_cases", json!(cases.len()));
+        run.parallel("vector-chains", cases.len() as u64, |i, l| {
+            let (op, n, lens) = &cases[i as usize];
+            let mut r = Rng::derive(seed, "c02-vc", i);
+            let chain = Expr::Comb(*op, operands[..*n].iter().map(|o| o.0.clone()).collect());
+            let mut ctxs: Vec<(Ctx, ListState)> = Vec::new();
+            for _ in 0..3 {
+                let mut vals = gen_ctx(&mut r, env);
+                for (k, len) in lens.iter().enumerate() {
+                    let (_, field, ty) = &operands[k];
+                    vals[*field] = if *len == 4 {
+                        None
+                    } else {
+                        Some(RV::Array(
+                            ty.clone(),
+                            (0..*len)
+                                .map(|_| match ty {
+                                    RType::Bool => RV::Bool(r.bool()),
+                                    RType::Int => RV::Int(if r.bool() { 1 } else { -1 }),
+                                    _ => RV::Bytes(if r.bool() { b"a".to_vec() } else { b"b".to_vec() }),
+                                })
+                                .collect(),
+                        ))
+                    };
+                }
+                ctxs.push((vals, ListState::default()));
+            }
+            for q in [QOp::Any, QOp::All] {
+                for negate in [false, true] {
+                    let inner = if negate { Expr::Not(Box::new(Expr::paren(chain.clone()))) } else { chain.clone() };
+                    let e = Expr::Quant(q, QArg::Logical(Box::new(inner))).normalize();
+                    let text = print_filter(env, &e, Some(Rng::derive(seed, "c02-vcp", i)));
+                    check_filter(run, l, "C02/vector-chain", "vector-chains", i, eng, &e, &text, &ctxs);
+                }
+            }
+            run.distinct(hash_str(&format!("vc|{:?}|{:?}", op, lens)));
+            if i % 997 == 0 {
+                run.sample("vector-chains", 3, || json!({"operator": format!("{:?}", op), "operand_lengths(4=absent)": lens}));
+            }
+        });
+    }
+
     // ---- family 2: indexed value expressions
     let n = run.opts.size(80_000, 1_500_000);
     run.parallel("values", n, |i, l| {
